@@ -54,6 +54,14 @@ CLAIMED = {
         "note": "Values after rename/move/duplicate are not decided; parser configuration during the rewrite is C10's rule. " + TRUST,
         "technique": "MIR match-arm coverage + control dependence (dominating branch on Eq with the sheet_index parameter)",
     },
+    "C28": {
+        "level": "Static decision of the selection guards: after every sheet deletion the selection is written or clamped on all "
+                 "paths; stores into the selected-sheet index are validated or clamps; stores into the selected cell/range are "
+                 "constants, copies of stored view fields, or validated by is_valid_row/is_valid_column_number on the same value.",
+        "note": "That the selected cell lies inside the selected range (a relation between runtime values) is not decided. Three "
+                "single-site exceptions with reasons (on_paste_styles x2, on_page_up). " + TRUST,
+        "technique": "CFG must-pass-through after delete sites + provenance/dominance of validators for every view-field store",
+    },
     "C29": {
         "level": "Static decision by provenance of every field stored into a Col/Row descriptor by the five setters and three "
                  "wrappers: same-named parameter, same field of the replaced descriptor, or a getter reading only that attribute.",
